@@ -19,6 +19,24 @@ Clauses decided here on the implementation's answer:
         A = [[-1,-1,2],[-2,2,-1],[2,0,0]], b = [3,-1,0]:  exact x = (0, 1/3, 5/3), computed x_0 = 1.4e-17, so the
         third equation 2 x_0 = 0 has residual 2.8e-17 against |A||x| + |b| = 2.8e-17 (ratio 1/(n u) ~ 3e15).
     2 of the 32 652 solved systems of the quick run are of this kind.
+ 1b. backward error, componentwise ("a componentwise backward error of a few rounding units"), in the only form an
+    LU-based solver can satisfy (Higham, Thm 9.3/9.4: (A + dA) x^ = b with |dA| <= gamma_3n P^T |L^||U^|):
+        |sum_j a_ij x_j - b_i|  <=  2^6 * n * u * ( (|L||U| |x|)_i + |b_i| )
+    where L, U are the factors of the elimination of A with scaled partial pivoting (row maxima of the ORIGINAL rows as
+    scales, largest scaled entry of the column as pivot, rows exchanged), computed HERE in exact rational arithmetic.
+    |L||U| >= |A| entrywise, so the clause is first tried with |A| in place of |L||U| (Oettli-Prager; no elimination
+    needed); only when that fails (fill-in: 1 in 10^4 ordinary systems, most of the tiny-entry family) the exact
+    elimination is carried out.  The pivot order of the implementation is not observable; the oracle replays the choice in
+    exact arithmetic and branches wherever the choice is not determined beyond doubt: a candidate i is admissible when
+    its scaled magnitude, widened by 2^-20 relative and by the rounding uncertainty (2^10 n u + eta) (|L||U|)_ik / s_i of
+    the computed entry (eta: the accumulated relative uncertainty of the pivots already used), reaches the best
+    candidate's lower end.  The clause PASSES when the bound holds for SOME admissible
+    order, FAILS when it is violated for EVERY admissible order (complete search), and abstains when the search is cut
+    off (budget) or a pivot on the path is not significantly non-zero (below 2^20 n u of its cancellation scale: the exact
+    factors then say nothing about the computed ones; such systems are refused at any tolerance of the statement).
+    The constant: theory gives 3 (gamma_3n/(n u)); the largest ratio observed on the unmodified code is printed in the
+    notes of every run.  This clause is what sees a dropped elimination step / a skipped "negligible" multiplier whose
+    solution component is huge: the row-wise form of clause 1 cannot (|a_i|_1 |x|_inf is then astronomically large).
  2. an exactly singular A (exact rational rank < n) with tolerance >= 1e-12 must be refused with an error -
     never answered with a vector (zeros, NaNs or anything else).
  3. a system that is well conditioned *by a certificate the oracle checks itself in exact arithmetic* must not
@@ -37,13 +55,17 @@ Clauses decided here on the implementation's answer:
  5. `back` / `forward`: when the call is inside its precondition (1 <= size for back; size <= both matrix
     dimensions and both slice lengths) it must not panic; with a non-zero diagonal the answer satisfies the
     triangular system in the form of clause 1, T = the triangle the routine is specified to read (the other
-    triangle may hold anything: NaN and infinities are put there).
+    triangle may hold anything: NaN and infinities are put there), AND componentwise (Higham, Thm 8.5:
+    (T + dT) x^ = b with |dT| <= gamma_n |T|, no fill-in in a substitution):
+        |sum_j t_ij x_j - b_i|  <=  2^6 * n * u * ( (|T||x|)_i + |b_i| ).
 
 The harness adds to clause 5: the same call on a buffer already used by another call and on a buffer full of -inf must give
 the same bits as on the NaN-filled one (the result may not depend on the previous contents of the output slice).
 
 Clauses 1-3 and 5 use a purely relative rounding model; they are not asserted when an input magnitude lies outside
-2^-340 .. 2^340 (subnormal / near-overflow systems are generated, and compared with the model only).
+2^-340 .. 2^340.  Near-overflow systems are generated and compared with the model only.  Tiny / subnormal systems
+(entries below 2^-340) are judged by clause 1b with an absolute underflow allowance - see `tiny_regime` - whenever a
+vector is returned at a tolerance >= 1e-12.
 
 "identically for every accepted container type" is decided inside the harness (every other container kind
 that can hold the numbers is called on the same request; any difference is a FAIL verdict).
@@ -70,7 +92,11 @@ RULE = ("exhaustive: all 625 2x2 matrices over -2..2 x 4 right-hand sides x tol 
         "column maxima), triangular / diagonal / permutation inputs with signed zeros, right-hand sides with leading / trailing "
         "zeros and unit vectors; near ties 1 +- 10^-t in the pivot column; NaN / inf in A, b, tol (correspondence only); "
         "triangular solves with NaN / inf / 1e300 in the triangle that must not be read, each repeated on a used buffer and on a "
-        "buffer of -inf; larger non-square shapes and wrong rhs lengths at orders 10 and 40. non-trivial = the model answers with a solution vector of length >= 1 or refuses as singular "
+        "buffer of -inf; larger non-square shapes and wrong rhs lengths at orders 10 and 40; tiny-times-huge (third seeded round): "
+        "an entry 2^-53..2^-90 of its own row's maximum in the column of an unknown 2^53..2^94 times the others (and the mirror image: "
+        "one entry 2^53..2^90 times the rest of its row, tiny unknown), n = 2..10, dense / dominant / banded / small-integer / dyadic "
+        "(f32-representable) bases, rows shuffled, row scalings none / 2^+-30 / 2^+-100, the 2x2 instances for every exponent 50..95, "
+        "triangular solves of the same kind. non-trivial = the model answers with a solution vector of length >= 1 or refuses as singular "
         "(shape errors and panics are trivial); distinct = distinct request lines")
 
 U = Fraction(1, 2 ** 53)
@@ -301,6 +327,178 @@ def residual_ratio(rows, cols_of, x, b, n):
     return worst
 
 
+# ------------------------------------------------------------------ componentwise clause (1b)
+
+C_COMP = 2 ** 6                           # theory: 3 (gamma_3n / (n u)); observed on the unmodified code: see the notes
+TIE_REL = Fraction(1, 2 ** 20)            # candidates this close (relative) are both admissible
+CU_FACTOR = 2 ** 10                       # rounding uncertainty of a computed entry: CU_FACTOR n u (|L||U|)_ik
+PIVOT_SIGNIF = 2 ** 10                    # a pivot below PIVOT_SIGNIF * its uncertainty: the branch is not judged
+LU_NODES = 300                            # search budget (elimination steps over all branches)
+LU_NMAX = 24                              # exact elimination only up to this order (cost); larger: clause 1 only
+INF_RATIO = Fraction(10 ** 40)
+QUANTUM = Fraction(1, 2 ** 1074)          # the smallest positive binary64 number
+TINY_HI = Fraction(2 ** 900)
+
+
+def residuals(A, b, x, n):
+    """exact r_i = a_i.x - b_i and d_i = (|A||x|)_i + |b_i|"""
+    r = []; d = []
+    ax = [abs(v) for v in x]
+    for i in range(n):
+        ri = -b[i]; di = abs(b[i])
+        row = A[i]
+        for j in range(n):
+            a = row[j]
+            if a != 0:
+                t = a * x[j]
+                ri += t; di += abs(t)
+        r.append(ri); d.append(di)
+    return r, d, ax
+
+
+def _ratio(r, den, n):
+    if r == 0:
+        return Fraction(0)
+    if den == 0:
+        return INF_RATIO
+    return abs(r) / (n * U * den)
+
+
+def lu_componentwise(A, b, x, n, r=None, ax=None, quantum=None):
+    """clause 1b with the exact |L||U| of scaled partial pivoting.  -> (verdict, ratio, orders)
+    verdict True: the bound holds for an admissible pivot order; False: violated for every admissible order;
+    None: not judged.  ratio = smallest over the orders evaluated of max_i |r_i| / (n u ((|L||U||x|)_i + |b_i|)).
+    `quantum` (tiny regime only, see `tiny_regime`): an absolute allowance quantum * (1 + max|l|) is taken off every
+    |r_i| first, and every computed entry is uncertain by (k+1) 2^-1074 (1 + max|l|) more."""
+    if r is None:
+        r, _, ax = residuals(A, b, x, n)
+    if n > LU_NMAX:
+        return None, None, 0
+    scale0 = [max(abs(v) for v in row) for row in A]
+    if any(sc == 0 for sc in scale0):
+        return None, None, 0
+    cu = CU_FACTOR * n * U
+    zero = Fraction(0)
+    # state: step k, rows M (current entries), W (accumulated |l||u| per row and column), scales, original indices
+    # eta: accumulated relative uncertainty of the pivots met so far (a pivot known to 1e-4 only makes every later
+    # multiplier and entry uncertain by as much)
+    stack = [(0, [row[:] for row in A], [[zero] * n for _ in range(n)], scale0[:], list(range(n)), zero, zero)]
+    best = None
+    unknown = False
+    nodes = 0
+    leaves = 0
+    while stack:
+        k, M, W, sc, orig, maxl, eta = stack.pop()
+        if k == n - 1:
+            # leaf: the last row is its own pivot row
+            last = n - 1
+            W[last] = W[last][:]
+            W[last][last] += abs(M[last][last])
+            worst = Fraction(0)
+            extra = quantum * (1 + maxl) if quantum is not None else None
+            for i in range(n):
+                o = orig[i]
+                if r[o] == 0 or (extra is not None and abs(r[o]) <= extra):
+                    continue
+                Wi = W[i]
+                den = abs(b[o])
+                for j in range(n):
+                    if Wi[j] != 0 and ax[j] != 0:
+                        den += Wi[j] * ax[j]
+                q = _ratio(r[o] if extra is None else abs(r[o]) - extra, den, n)
+                if q > worst:
+                    worst = q
+            leaves += 1
+            if best is None or worst < best:
+                best = worst
+            if best <= C_COMP:
+                return True, best, leaves
+            continue
+        nodes += 1
+        if nodes > LU_NODES:
+            unknown = True
+            break
+        # candidates of column k
+        rho = []; lo = []; hi = []
+        for i in range(k, n):
+            m = abs(M[i][k])
+            rr = m / sc[i]
+            dl = (cu + eta) * (W[i][k] + m) / sc[i]
+            if quantum is not None:
+                dl += (k + 1) * QUANTUM * (1 + maxl) / sc[i]
+            rho.append(rr)
+            lo.append(rr * (1 - TIE_REL) - dl)
+            hi.append(rr * (1 + TIE_REL) + dl)
+        best_lo = max(lo)
+        adm = [i for i in range(k, n) if hi[i - k] >= best_lo and (hi[i - k] > 0)]
+        if not adm:
+            unknown = True                # the column vanishes exactly: singular, nothing to judge
+            continue
+        # most plausible candidate last (popped first): largest exact ratio, first index on ties
+        adm.sort(key=lambda i: (rho[i - k], -i))
+        for p in adm:
+            m = abs(M[p][k])
+            dp = (cu + eta) * (W[p][k] + m)
+            if quantum is not None:
+                dp += (k + 1) * QUANTUM * (1 + maxl)
+            if m == 0 or m < PIVOT_SIGNIF * dp:
+                unknown = True            # not significantly non-zero: exact and computed factors may differ wildly
+                continue
+            M2 = [row for row in M]; W2 = [row for row in W]; sc2 = sc[:]; or2 = orig[:]
+            if p != k:
+                M2[k], M2[p] = M2[p], M2[k]
+                W2[k], W2[p] = W2[p], W2[k]
+                sc2[k], sc2[p] = sc2[p], sc2[k]
+                or2[k], or2[p] = or2[p], or2[k]
+            Mk = M2[k]
+            piv = Mk[k]
+            absk = [abs(v) for v in Mk]
+            Wk = W2[k][:]
+            for j in range(k, n):
+                Wk[j] += absk[j]          # l_kk = 1 times row k of U
+            W2[k] = Wk
+            ml = maxl
+            for i in range(k + 1, n):
+                a = M2[i][k]
+                if a == 0:
+                    continue              # rows are shared between branches until modified
+                l = a / piv
+                al = abs(l)
+                if al > ml:
+                    ml = al
+                Mi = M2[i][:]; Wi = W2[i][:]
+                Wi[k] += abs(a)           # |l_ik| |u_kk|
+                Mi[k] = zero
+                for j in range(k + 1, n):
+                    u = Mk[j]
+                    if u != 0:
+                        Mi[j] -= l * u
+                        Wi[j] += al * absk[j]
+                M2[i] = Mi; W2[i] = Wi
+            stack.append((k + 1, M2, W2, sc2, or2, ml, eta + dp / m))
+    if best is not None and best <= C_COMP:
+        return True, best, leaves
+    if unknown or best is None:
+        return None, best, leaves
+    return False, best, leaves
+
+
+def componentwise(A, b, x, n, want_lu=False):
+    """clause 1b.  -> (verdict, ratio, how): first with |A| in place of |L||U| (sufficient), then with the exact factors"""
+    r, d, ax = residuals(A, b, x, n)
+    qop = Fraction(0)
+    for i in range(n):
+        q = _ratio(r[i], d[i], n)
+        if q > qop:
+            qop = q
+    if qop <= C_COMP and not want_lu:
+        return True, qop, "|A||x|"
+    v, q, orders = lu_componentwise(A, b, x, n, r, ax)
+    if qop <= C_COMP:
+        return True, (q if q is not None else qop), "|L||U||x|"
+    return v, q, "|L||U||x| (%d pivot order%s)" % (orders, "" if orders == 1 else "s")
+
+
 # ------------------------------------------------------------------ oracle
 
 def gauss_oracle(h, w, A, b, tol, ans, want_ratio=False):
@@ -321,7 +519,9 @@ def gauss_oracle(h, w, A, b, tol, ans, want_ratio=False):
     if any(x is None for row in A for x in row) or any(x is None for x in b) or tol is None:
         return None                       # NaN / inf inputs are outside the property
     if not in_safe_range([x for row in A for x in row] + list(b)):
-        return None                       # under-/overflow possible: the rounding model does not apply
+        if want_ratio:
+            return None
+        return tiny_regime(A, b, tol, kind, payload, n)
     if kind == "ok":
         x = payload
         if len(x) != n:
@@ -332,6 +532,9 @@ def gauss_oracle(h, w, A, b, tol, ans, want_ratio=False):
         if any(v is None for v in x):
             return "solution contains NaN/inf (tolerance %s)" % float(tol) if above else None
         q = residual_ratio(A, lambda i: range(n), x, b, n)
+        if want_ratio == "comp":
+            v, qc, how = componentwise(A, b, x, n, want_lu=True)
+            return qc if v is not None else None
         if want_ratio:
             return q
         if q is None or q > C_BOUND:
@@ -339,6 +542,13 @@ def gauss_oracle(h, w, A, b, tol, ans, want_ratio=False):
                 return None               # tolerance below rounding level on a singular matrix: not constrained
             return "backward error: an equation has |a_i.x - b_i| > 2^10 n u (|a_i|_1 |x|_inf + |b_i|) (ratio to n u (..): %s)" % (
                 "inf" if q is None else "%.3g" % float(q))
+        v, qc, how = componentwise(A, b, x, n)
+        if v is False:
+            if not above and singular(A):
+                return None
+            return ("componentwise backward error: an equation has |a_i.x - b_i| > 2^6 n u ((|L||U||x|)_i + |b_i|), L U the exact "
+                    "factors of scaled partial pivoting, for every admissible pivot order (ratio to n u (..): %s; %s)" % (
+                        "inf" if qc is None or qc >= INF_RATIO else "%.3g" % float(qc), how))
         return None
     # refused
     if want_ratio:
@@ -347,6 +557,73 @@ def gauss_oracle(h, w, A, b, tol, ans, want_ratio=False):
         c = certified_well_conditioned(A)
         if c:
             return "well-conditioned system (%s) refused with `%s` at tolerance %s" % (c, payload, float(tol))
+    return None
+
+
+def solve_exact(A, b):
+    """the exact rational solution of A x = b; None when singular"""
+    n = len(A)
+    M = [list(A[i]) + [b[i]] for i in range(n)]
+    for k in range(n):
+        p = next((r for r in range(k, n) if M[r][k] != 0), None)
+        if p is None:
+            return None
+        M[k], M[p] = M[p], M[k]
+        pk = M[k][k]
+        for r in range(k + 1, n):
+            if M[r][k] != 0:
+                f = M[r][k] / pk
+                Mr, Mk = M[r], M[k]
+                for c in range(k, n + 1):
+                    Mr[c] -= f * Mk[c]
+    x = [Fraction(0)] * n
+    for i in range(n - 1, -1, -1):
+        x[i] = (M[i][n] - sum(M[i][j] * x[j] for j in range(i + 1, n))) / M[i][i]
+    return x
+
+
+def tiny_regime(A, b, tol, kind, x, n, strict=False):
+    """THE EDGE OF THE NUMBER RANGE, downwards: systems with entries below 2^-340, down to subnormal entries (far below
+    the statement's row scalings; generated since the third seeded round).  Products of a multiplier and a tiny entry are
+    rounded to multiples of 2^-1074 there, so the relative rounding model of clauses 1 / 1b gets an ABSOLUTE allowance:
+        |a_i.x - b_i| <= 2^6 n u ((|L||U||x|)_i + |b_i|) + 2^6 n^2 2^-1074 (1 + max|l|)(1 + |x|_inf)
+    (each of the <= n updates of an entry, each product of a substitution sum is off by <= 2^-1075; an error in row k
+    reaches equation i through the multiplier l_ik; the constant 2^6 is slack: the largest share observed on the
+    unmodified code is 0.12 of one unit).  Only returned vectors at tolerances
+    >= 1e-12 on non-singular matrices are judged; refusals and the singular-matrix clause are left to the comparison with
+    the model (few significant bits: a well-conditioned subnormal matrix may legitimately look singular).  With `strict`
+    the answer "passed" is returned when the vector was judged and satisfies the bound (None then means "not judged").  A vector with
+    NaN / inf components is a failure when the oracle's own certificate says that nothing can go wrong: entries >= 2^-1050,
+    certified well conditioned, exact solution below 2^900.  Entries above 2^340 (overflow side): not judged."""
+    vals = [v for row in A for v in row] + list(b)
+    if any(abs(v) > SAFE_HI for v in vals):
+        return None
+    if kind != "ok" or tol < TOL_ROUNDING or n > 12:
+        return None
+    if len(x) != n:
+        return "solution has %d components for %d unknowns" % (len(x), n)
+    if singular(A):
+        return None
+    if any(v is None for v in x):
+        if all(v == 0 or abs(v) >= Fraction(1, 2 ** 1050) for row in A for v in row) and certified_well_conditioned(A):
+            xe = solve_exact(A, b)
+            if xe is not None and all(abs(v) <= TINY_HI for v in xe):
+                return ("solution contains NaN/inf on a tiny but well-conditioned system (entries >= 2^-1050, exact solution "
+                        "below 2^900, tolerance %s)" % float(tol))
+        return None
+    if any(abs(v) > TINY_HI for v in x):
+        return None
+    r, d, ax = residuals(A, b, x, n)
+    quantum = 2 ** 6 * n * n * QUANTUM * (1 + max(ax))
+    if all(abs(r[i]) <= C_COMP * n * U * d[i] + quantum for i in range(n)):
+        return "passed" if strict else None
+    v, qc, orders = lu_componentwise(A, b, x, n, r, ax, quantum=quantum)
+    if v is True and strict:
+        return "passed"
+    if v is False:
+        return ("tiny system (entries below 2^-340): an equation has |a_i.x - b_i| > 2^6 n u ((|L||U||x|)_i + |b_i|) + 2^6 n^2 "
+                "2^-1074 (1 + max|l|)(1 + |x|_inf) for every admissible pivot order (ratio of the excess to n u (..): %s)" % (
+                    "inf" if qc is None or qc >= INF_RATIO else "%.3g" % float(qc)))
     return None
 
 
@@ -377,11 +654,34 @@ def subst_oracle(back, h, w, A, size, b, ns, ans, want_ratio=False):
     if any(v is None for v in x[:size]):
         return "solution contains NaN/inf on a triangular system with non-zero diagonal"
     q = residual_ratio([A[i] for i in range(size)], cols, x, b, max(size, 1))
+    if want_ratio == "comp":
+        return subst_componentwise(A, cols, x, b, size)
     if want_ratio:
         return q
     if q is None or q > C_BOUND:
         return "triangular solve: an equation has |t_i.x - b_i| > 2^10 n u (|t_i|_1 |x|_inf + |b_i|)"
+    qc = subst_componentwise(A, cols, x, b, size)
+    if qc > C_COMP:
+        return ("triangular solve: an equation has |t_i.x - b_i| > 2^6 n u ((|T||x|)_i + |b_i|) (ratio to n u (..): %s)" % (
+            "inf" if qc >= INF_RATIO else "%.3g" % float(qc)))
     return None
+
+
+def subst_componentwise(A, cols, x, b, size):
+    """max_i |t_i.x - b_i| / (n u ((|T||x|)_i + |b_i|)) over the triangle that is read"""
+    worst = Fraction(0)
+    n = max(size, 1)
+    for i in range(size):
+        r = -b[i]; d = abs(b[i])
+        for j in cols(i):
+            a = A[i][j]
+            if a != 0:
+                t = a * x[j]
+                r += t; d += abs(t)
+        q = _ratio(r, d, n)
+        if q > worst:
+            worst = q
+    return worst
 
 
 def _parse_gauss(req):
@@ -434,12 +734,19 @@ def _both_backward_stable(req, impl, model):
                     return False
                 if any(x is None for row in A for x in row) or any(x is None for x in b):
                     return False
-                if not in_safe_range([x for row in A for x in row] + list(b)):
-                    return False
                 kind, x = parse_answer(ans)
                 if kind != "ok" or len(x) != h or any(v is None for v in x):
                     return False
-                qs.append(residual_ratio(A, lambda i: range(h), x, b, h))
+                if not in_safe_range([x for row in A for x in row] + list(b)):
+                    # tiny regime: both vectors must have been judged by the absolute-allowance clause and satisfy it
+                    if tiny_regime(A, b, tol, kind, x, h, strict=True) != "passed":
+                        return False
+                    qs.append(Fraction(0))
+                    continue
+                q = residual_ratio(A, lambda i: range(h), x, b, h)
+                if q is not None and q <= C_BOUND and componentwise(A, b, x, h)[0] is False:
+                    return False          # clause 1b violated: not a solution in the sense of the property
+                qs.append(q)
             else:
                 rd = Rd(req.split(), 1)
                 h, w, A = rd.mat(); size = rd.nat(); b = rd.vec(); ns = rd.nat()
@@ -460,8 +767,10 @@ def compare(req, impl, model):
     identical; reporting the empty system through another variant is not a deviation the property can see).
     Solution vectors numerically: bit-equal / both NaN / equal infinities, or
     |a-b| <= 1e-9 * max(|impl|_inf, |model|_inf) (on the unmodified tree they are bit-identical); a larger difference
-    is accepted when BOTH vectors pass the property's exact backward-error test (an ill-conditioned system amplifies a
-    harmless re-association of the floating-point sums beyond any fixed envelope), or when the system lies in the
+    is accepted when BOTH vectors pass the property's exact backward-error tests, clauses 1 and 1b (an ill-conditioned
+    system amplifies a harmless re-association of the floating-point sums beyond any fixed envelope; for a tiny /
+    subnormal system, where a fused multiply-add moves results by 1e-8, both must have been judged by `tiny_regime` and
+    pass it), or when the system lies in the
     overflow regime (`_overflow_regime`)"""
     if impl == model:
         return None
@@ -558,32 +867,53 @@ def finish(rows, tier):
         return notes                      # a replay, not a generated run
     seen2, seen3 = set(), set()
     worst = Fraction(0); nworst = 0
-    budget = 4000
+    eligible = []
     for (req, impl, horc, model) in rows:
         if not req.startswith("gauss "):
             continue
         t = req.split()
-        if t[2] == "2" and t[3] == "2":
+        if t[2] == "2" and t[3] == "2" and all(x[0] == "i" and -2 <= int(x[1:]) <= 2 for x in t[4:8]):
             seen2.add(tuple(t[4:8]))
         elif t[2] == "3" and t[3] == "3" and all(x[0] == "i" and -2 <= int(x[1:]) <= 2 for x in t[4:13]):
             seen3.add(tuple(t[4:13]))
-        elif budget > 0 and t[2] == t[3] and impl.startswith("ok"):
-            budget -= 1
-            h, w, A, b, tol, _ = _parse_gauss(req)
-            if len(b) == h and h > 0 and tol is not None and tol >= TOL_ROUNDING:
+        elif t[2] == t[3] and impl.startswith("ok"):
+            eligible.append((req, impl))
+    # observed rounding margins on a sample spread over all families (every step-th solved system)
+    step = max(1, len(eligible) // 1500)
+    worstc = Fraction(0); nc = 0; nabst = 0; nop = 0
+    for (req, impl) in eligible[::step]:
+        h, w, A, b, tol, _ = _parse_gauss(req)
+        if len(b) == h and h > 0 and tol is not None and tol >= TOL_ROUNDING:
+            try:
+                q = gauss_oracle(h, w, A, b, tol, impl, want_ratio=True)
+            except Exception:
+                q = None
+            if isinstance(q, Fraction):
+                nworst += 1
+                if q > worst:
+                    worst = q
                 try:
-                    q = gauss_oracle(h, w, A, b, tol, impl, want_ratio=True)
+                    kind, x = parse_answer(impl)
+                    r, d, ax = residuals(A, b, x, h)
+                    if any(_ratio(r[i], d[i], h) > C_COMP for i in range(h)):
+                        nop += 1
+                    v, qc, orders = lu_componentwise(A, b, x, h, r, ax)
                 except Exception:
-                    q = None
-                if isinstance(q, Fraction):
-                    nworst += 1
-                    if q > worst:
-                        worst = q
+                    v, qc = None, None
+                if v is None:
+                    nabst += 1
+                else:
+                    nc += 1
+                    if qc > worstc:
+                        worstc = qc
     small2 = {m for m in seen2 if all(x[0] == "i" and -2 <= int(x[1:]) <= 2 for x in m)}
     notes.append(f"exhaustive 2x2 over -2..2: {len(small2)}/625 matrices")
     notes.append(f"3x3 over -2..2: {len(seen3)}/1953125 distinct matrices")
-    notes.append(f"largest backward-error ratio |a_i.x-b_i|/(n u (|a_i|_1 |x|_inf+|b_i|)) over {nworst} non-exhaustive solved systems: "
-                 f"{float(worst):.3g} (bound {C_BOUND})")
+    notes.append(f"largest backward-error ratio |a_i.x-b_i|/(n u (|a_i|_1 |x|_inf+|b_i|)) over {nworst} non-exhaustive solved systems "
+                 f"(every {step}-th of {len(eligible)}): {float(worst):.3g} (bound {C_BOUND})")
+    notes.append(f"largest componentwise ratio |a_i.x-b_i|/(n u ((|L||U||x|)_i+|b_i|)), exact factors of scaled partial pivoting, over "
+                 f"{nc} of them: {float(worstc):.3g} (bound {C_COMP}); not judged (pivot order undecidable / pivot at rounding level / "
+                 f"order > {LU_NMAX}): {nabst}; the form with |A| in place of |L||U| (Oettli-Prager) fails on {nop}")
     if len(small2) != 625:
         notes.append("INCOMPLETE: the 2x2 space was not covered")
     if tier == "thorough" and len(seen3) != 1953125:
